@@ -254,6 +254,9 @@ func loadContracts(dir, pkgPath string) (*PkgContracts, error) {
 				if rest == "off" {
 					cur.Safety = "off"
 				}
+				if rest == "no-overflow" {
+					cur.Safety = "no-overflow"
+				}
 				cur.SafeTags = tags
 			case "result":
 				cur.ResultIs = strings.TrimSpace(strings.TrimPrefix(rest, "is"))
